@@ -105,6 +105,47 @@ def bad_strip_case(task):
     return out
 
 
+def strip_corner_case(task):
+    """corners of -pN and of the old/new choice: a "." among the components that are removed, an old name that -pN uses up
+    completely, an old name that is a directory. Decoy files sit where a wrong count or a wrong choice would land."""
+    label, old, new, strip, target, use_d, threads = task
+    d = wsweep.wdir()
+    root = os.path.join(d, 'ws')
+    files = {p: (BODY, 0o644) for p in ('f', 'b/f', 'a/b/f', 'c/f', 'd/f')}
+    files['sub/keep'] = (b'k\n', 0o644)
+    text = ('--- %s\n+++ %s\n' % (old, new)).encode() + b'@@ -1,4 +1,4 @@\n l0\n-l1\n+CHANGED\n l2\n l3\n'
+    ws.make_ws(root, files, {'p1.patch': text}, ['p1.patch -p%d' % strip])
+    o = ws.run_rq(root, ['-a', '-q', '--backup', 'never'], threads=threads, use_d=use_d, trace=os.path.join(d, 'trace'))
+    got = ws.tree_of(ws.snapshot(root))
+    want = dict(files)
+    want[target] = (BODY.replace(b'l1\n', b'CHANGED\n'), 0o644)
+    out = {'evals': 1, 'violations': [], 'outcomes': {'strip-corner:exit-' + o.cls: 1}, 'nontrivial': 1}
+    tags = wsweep.cls({'strip-corner:' + label, '-p%d' % strip, 'with-d' if use_d else 'in-cwd'})
+    if o.cls != '0' or got != want:
+        changed = sorted(p for p in set(got) | set(want) if got.get(p) != files.get(p))
+        out['violations'].append((tags, o.cls if o.cls not in ('0', '1') else ('not-applied' if o.cls == '1' else 'wrong-file-patched'),
+                                  {'kind': 'cli', 'files': {k: [common.b2s(v[0]), v[1]] for k, v in files.items()}, 'patches': {'p1.patch': common.b2s(text)}, 'series': ['p1.patch -p%d' % strip],
+                                   'args': ['-a', '-q', '--backup', 'never'], 'threads': threads, 'series_desc': '%s: --- %s +++ %s at -p%d, %s' % (label, old, new, strip, 'with -d' if use_d else 'run inside of the workspace'),
+                                   'expected': 'exit 0, %s patched' % target, 'observed': 'exit %s, changed: %r' % (o.cls, changed), 'stderr': common.b2s(o.err[-300:])}))
+    return out
+
+
+STRIP_CORNERS = [
+    # label, old name, new name, -pN, file that must be patched
+    ('dot-among-the-stripped', 'x/./a/b/f', 'x/./a/b/f', 2, 'a/b/f'),
+    ('dot-among-the-stripped', 'a/./d/f', 'b/./d/f', 2, 'd/f'),
+    ('dot-among-the-stripped', '././c/f', '././c/f', 2, 'c/f'),
+    ('dot-first', './x/a/b/f', './x/a/b/f', 2, 'a/b/f'),
+    ('double-slash', 'x//y///a/b/f', 'x//y///a/b/f', 2, 'a/b/f'),
+    ('dot-kept', 'x/a/./b/f', 'x/a/./b/f', 1, 'a/b/f'),
+    ('old-name-used-up', 'a/f', 'b/c/f', 2, 'f'),
+    ('old-name-used-up', 'f.orig', 'b/f', 1, 'f'),
+    ('new-name-used-up', 'x/y/c/f', 'c', 2, 'c/f'),
+    ('old-name-is-a-directory', 'a/sub', 'b/f', 1, 'f'),
+    ('old-name-is-a-directory', 'a/b', 'b/d/f', 1, 'd/f'),
+]
+
+
 # ---------------------------------------------------------------- part 2: which name is patched
 
 STATES = ['on-disk', 'created-earlier', 'deleted-earlier', 'renamed-away', 'absent']
@@ -225,6 +266,12 @@ def run(tier, seed):
     for r in wsweep.pmap(bad_strip_case, [(sp, t, pos) for sp in BAD_STRIPS for t in (1, 2) for pos in (0, 1)]):
         acc3.add(r)
     acc3.finish('strip_counts_that_are_no_numbers')
+    acc4 = wsweep.Acc(res)
+    for r in wsweep.pmap(strip_corner_case, [c + (use_d, t) for c in STRIP_CORNERS for use_d in (True, False) for t in (1, 2)]):
+        acc4.add(r)
+    acc4.finish('strip_and_choice_corners')
+    res.coverage['strip_and_choice_corners']['rule'] = ('names with "." or "//" among or behind the components -pN removes (counted as written, like patch); an old (or new) name with fewer components than N; an old name that is a '
+                                                       'directory: %d cases x with/without -d x threads {1,2}; decoy files at every place a miscount would land; exactly the stated file changes') % len(STRIP_CORNERS)
     tasks2 = [(so, sn, kind, split, threads) for so in STATES for sn in STATES for kind in ('modify', 'create', 'delete') for split in (False, True) for threads in (1, 2)]
     acc2 = wsweep.Acc(res)
     for i, r in enumerate(wsweep.pmap(name_case, tasks2)):
